@@ -276,13 +276,14 @@ var kC14Block = register(&Kind[c14Block]{
 // ---- kind: builder chain ----------------------------------------------------------------
 
 type c14Chain struct {
-	Key     HexBytes   `json:"key"`
-	P       uint8      `json:"p"`
-	M       uint64     `json:"m"`
-	Entries []HexBytes `json:"entries"`
-	SetP    int        `json:"set_p"` // -1: not called; else SetP(value) after construction
-	SetM    int64      `json:"set_m"` // -1: not called; >=0: SetM(value); -2: SetM(2^32+5)
-	UseHash bool       `json:"use_hash"`
+	Key      HexBytes   `json:"key"`
+	P        uint8      `json:"p"`
+	M        uint64     `json:"m"`
+	Entries  []HexBytes `json:"entries"`
+	SetP     int        `json:"set_p"` // -1: not called; else SetP(value) after construction
+	SetM     int64      `json:"set_m"` // -1: not called; >=0: SetM(value); -2: SetM(2^32+5)
+	UseHash  bool       `json:"use_hash"`
+	Prealloc int        `json:"prealloc"` // k>0: Preallocate(k*37) after every k-th entry
 }
 
 func evalC14Chain(c c14Chain, o *Obs) error {
@@ -331,6 +332,10 @@ func evalC14Chain(c c14Chain, o *Obs) error {
 		if !seen[string(e)] {
 			seen[string(e)] = true
 			entries = append(entries, append([]byte{}, e...))
+		}
+		if c.Prealloc > 0 && (i+1)%c.Prealloc == 0 {
+			b = b.Preallocate(uint32(c.Prealloc * 37)) // a size hint: entries already added stay
+			o.Class("C14:preallocate-mid-chain")
 		}
 	}
 	f, err := b.Build()
@@ -407,7 +412,7 @@ func evalC14Chain(c c14Chain, o *Obs) error {
 var kC14Chain = register(&Kind[c14Chain]{
 	Prop: "C14", Name: "builder",
 	Gen: func(t *rapid.T) c14Chain {
-		c := c14Chain{Key: genBytesN(t, "key", 16), SetP: -1, SetM: -1, UseHash: rapid.Bool().Draw(t, "hash")}
+		c := c14Chain{Key: genBytesN(t, "key", 16), SetP: -1, SetM: -1, UseHash: rapid.Bool().Draw(t, "hash"), Prealloc: rapid.IntRange(0, 4).Draw(t, "prealloc")}
 		c.P = uint8(rapid.SampledFrom([]int{0, 1, 8, 19, 20, 31, 32, 33, 40, 255}).Draw(t, "p"))
 		c.M = rapid.SampledFrom([]uint64{0, 1, 784931, 1 << 20, 0xffffffff, 1 << 32, 1 << 40}).Draw(t, "m")
 		if c.M > uint64(64)<<c.P && c.P <= 32 { // keep unary runs short
